@@ -61,6 +61,12 @@ def yields_only_empty(ctx, y):
         for e in somes:
             if not any(c.edge_dominates(te, e['point']) for (_bi, _c, te, _fe, _cs) in guards):
                 ok_all = False
+        # ... and EVERY empty queue is yielded: from the `is_empty() == true` edge no None exit is reachable (a cache
+        # of "already recorded" positions would let the only record of an idle queue die with its file)
+        for (_bi, _c, te, _fe, _cs) in guards:
+            r_ = c.reach([te[1]])
+            if any(e['kind'] == 'none' and e['point'] in r_ for e in c.exits()):
+                ok_all = False
     # `.filter(|(_, q)| q.is_empty())` spelling: the iterator handed out is (derived from) a filter whose
     # predicate is exactly MemQueue::is_empty of the item
     fl = None
@@ -122,7 +128,24 @@ def position_pass_facts(ctx, b):
                     ok, cnt = yields_only_empty(ctx, y)
                     if cnt:
                         yielders.append((y, ok))
-        out.append({'cs': cs, 'item_ok': item_ok, 'pos_ok': pos_ok, 'yielders': yielders, 'nexts': nexts, 'loops': loops})
+        # every yielded queue is logged: from the Some edge of next() the loop cannot come round again without
+        # passing the log site; and the pass always runs: no successful exit of the body avoids the loop
+        every_ok = True
+        from core import result_edges
+        for n in nexts:
+            if n.dest_local() is None:
+                continue
+            re_ = result_edges(b, n.dest_local())
+            for oe in re_['ok']:
+                if n.point in b.reach([oe[1]], avoid=[cs.point]):
+                    every_ok = False
+        always_ok = True
+        if nexts:
+            ok_pts = [e['point'] for e in b.exits() if e['kind'] in ('ok',)]
+            r0 = b.reach([b.entry], avoid=[n.point for n in nexts])
+            if any(p_ in r0 for p_ in ok_pts):
+                always_ok = False
+        out.append({'cs': cs, 'item_ok': item_ok, 'pos_ok': pos_ok, 'yielders': yielders, 'nexts': nexts, 'loops': loops, 'every_ok': every_ok, 'always_ok': always_ok})
     return out
 
 
@@ -179,6 +202,15 @@ def gc1(ctx):
                       'RecordPosition.queue does not flow from the item yielded by the empty-queue iterator')
             ctx.check(f['pos_ok'], k + ':position', where(b, f['cs'].point), 'RecordPosition.position flows from next_position()/start_position() of the yielded queue',
                       'RecordPosition.position does not flow from MemQueue::next_position/start_position of the yielded queue')
+            ctx.check(f['every_ok'], k + ':every-item-logged', where(b, f['cs'].point), 'every queue handed out by the iterator gets its position entry',
+                      'the position pass can skip a queue it was handed (a `continue` before the log site, e.g. an "already recorded" cache): the only record of an idle empty queue would die with its file')
+            if True:
+                is_api = any(r['node'] == b.id for r in ctx.f.roots)
+                # only for a body that IS the pass (called before the unlink); a pass written in place in the body that
+                # also unlinks is covered by the dominance of the unlink by the loop
+                if not is_api and b.ret_ty.startswith('std::result::Result<') and 'UNLINK' not in ctx.E.may().get(b.id, set()):
+                    ctx.check(f['always_ok'], k + ':always-runs', where(b, f['cs'].point), 'no successful exit of the position pass avoids the loop over the empty queues',
+                              'the position pass can return successfully without walking the empty queues (early return on a cached state): files would be unlinked without the positions having been recorded in a surviving file')
             ctx.check(bool(f['yielders']) and all(ok for (_y, ok) in f['yielders']), k + ':only-empty', where(b, f['cs'].point),
                       'items are yielded only under the true edge of MemQueue::is_empty',
                       'the iterator feeding the position pass may yield non-empty queues (replaying their position would reset them)')
